@@ -1,6 +1,6 @@
 ------------------------------ MODULE MC_Stats ------------------------------
 \* C08: every integer data vector of length 1..L over -M..M paired with three companion vectors,
-\* and every strictly increasing edge vector over 0..E.
+\* and every strictly increasing edge vector over 0..E (plus the non-decreasing ones with one repeated edge).
 EXTENDS Stats, Json
 CONSTANTS L, M, E
 VARIABLE c
@@ -9,11 +9,16 @@ Companion(x, k) == LET n == Len(x) IN
                    CASE k = 1 -> [i \in 1..n |-> i]
                      [] k = 2 -> [i \in 1..n |-> ((i * i) % 5) - 2]
                      [] k = 3 -> [i \in 1..n |-> x[n + 1 - i]]
+Dup(s, i) == SubSeq(s, 1, i) \o <<s[i]>> \o SubSeq(s, i + 1, Len(s))
 EdgeSets == {S \in SUBSET (0..E) : Cardinality(S) >= 2 /\ Cardinality(S) <= 5}
 SortedSeq(S) == LET RECURSIVE F(_) F(T) == IF T = {} THEN <<>> ELSE
                      LET m == CHOOSE a \in T : \A b \in T : a <= b IN <<m>> \o F(T \ {m}) IN F(S)
 Init == \/ \E x \in Vecs, k \in 1..3 : c = [fam |-> "data", x |-> x, y |-> Companion(x, k)]
         \/ \E S \in EdgeSets : c = [fam |-> "edges", x |-> SortedSeq(S), y |-> <<>>]
+        \* edges that are non-decreasing only: one edge repeated (a bin of width zero has its centre on the edge; there are
+        \* still Len - 1 centres), down to the single degenerate bin <<a, a>>
+        \/ \E S \in {T \in SUBSET (0..E) : Cardinality(T) >= 1 /\ Cardinality(T) <= 4} : \E i \in 1..Cardinality(S) :
+              c = [fam |-> "edges", x |-> Dup(SortedSeq(S), i), y |-> <<>>]
 Next == UNCHANGED c
 Spec == Init /\ [][Next]_c
 IsData == c.fam = "data"
